@@ -13,6 +13,8 @@ use tracing;
 pub(crate) struct PeerInfo {
   pub uri: String,
   pub strategy: Arc<dyn RouterSendStrategy>,
+  /// The pipe that registered this entry; only that pipe's departure may remove it.
+  pub pipe_read_id: usize,
 }
 
 #[derive(Debug, Default)]
@@ -34,6 +36,7 @@ impl RouterMap {
     let peer_info = PeerInfo {
       uri: endpoint_uri.clone(),
       strategy: Arc::new(DefaultRouterStrategy), // Use default strategy initially
+      pipe_read_id,
     };
 
     if let Some(old_info) = id_to_info_guard.insert(identity.clone(), peer_info) {
@@ -51,7 +54,12 @@ impl RouterMap {
       pipe_to_id_guard.insert(pipe_read_id, identity.clone())
     {
       if old_identity_for_this_pipe != identity {
-        id_to_info_guard.remove(&old_identity_for_this_pipe);
+        if id_to_info_guard
+          .get(&old_identity_for_this_pipe)
+          .map_or(false, |info| info.pipe_read_id == pipe_read_id)
+        {
+          id_to_info_guard.remove(&old_identity_for_this_pipe);
+        }
         tracing::warn!(
             pipe_read_id,
             new_identity = ?identity,
@@ -72,6 +80,13 @@ impl RouterMap {
 
     if let Some(identity) = identity_to_remove {
       let mut id_to_info_guard = self.identity_to_peer_info.write();
+      // Another live pipe may have taken over this identity (collision): the entry is then not ours to remove.
+      if id_to_info_guard
+        .get(&identity)
+        .map_or(false, |info| info.pipe_read_id != pipe_read_id)
+      {
+        return;
+      }
       if let Some(removed_info) = id_to_info_guard.remove(&identity) {
         tracing::trace!(
             ?identity,
@@ -148,6 +163,7 @@ impl RouterMap {
     let peer_info = PeerInfo {
       uri: endpoint_uri.to_string(),
       strategy,
+      pipe_read_id,
     };
 
     let mut id_to_info_guard = self.identity_to_peer_info.write();
@@ -155,7 +171,11 @@ impl RouterMap {
 
     // Remove old identity if the pipe is being re-identified
     if let Some(old_identity) = pipe_to_id_guard.get(&pipe_read_id) {
-      if *old_identity != new_identity {
+      if *old_identity != new_identity
+        && id_to_info_guard
+          .get(old_identity)
+          .map_or(false, |info| info.pipe_read_id == pipe_read_id)
+      {
         id_to_info_guard.remove(old_identity);
       }
     }
